@@ -267,6 +267,11 @@ static void exercise_page(vbi_page *pg, int is_cc, int heavy, int unref)
 #if defined(__SANITIZE_ADDRESS__)
 #  include <sanitizer/asan_interface.h>
 #  define C01_POISONED(p, n) (__asan_region_is_poisoned((void *)(p), (n)) != NULL)
+#elif __has_include(<valgrind/memcheck.h>)
+#  include <valgrind/memcheck.h>
+/* under memcheck: VALGRIND_GET_VBITS returns 3 when part of the range is not addressable (and prints nothing) */
+static unsigned char c01_vbits[48 * 60 + 64];
+#  define C01_POISONED(p, n) (RUNNING_ON_VALGRIND && 3 == VALGRIND_GET_VBITS((p), c01_vbits, (n)))
 #else
 #  define C01_POISONED(p, n) 0
 #endif
